@@ -31,6 +31,11 @@ Oracles, at every radius and grid point (lam = K - 2 mu/3 computed by the harnes
   elastic    real moduli: heating <= ELASTIC_TOL * sum_k w_k (|sigma_k| + 2|mu||eps_k| + (|K|+|mu|) sum_diag|eps|) |eps_k|
              (real y: exactly 0 is expected; complex y with real moduli: sigma_k conj(eps_k) sums to a real number only
              after cancellation, tolerance ELASTIC_CY_TOL on the same scale)
+  dtype_route  `route` = float | int | zerod: on `int` the radii, times and (float-dtype) bulk moduli are rounded to integral
+             values and passed as int64 arrays with order_l as np.int64; on `zerod` the frequency is a 0-d float64 array.
+             Strains and stresses must equal the float64 call on the same numbers (1e-11 of the row maximum; measured
+             identical) and are what every other clause judges; a numba TypingError/TypeError would be a clean rejection.
+  inputs_mutated  every array argument of both functions is copied before the call and must be unchanged afterwards.
   shape      outputs have shape (6, n_r, n_long, n_colat, n_time) / (n_r, n_long, n_colat, n_time).
 
 Tolerances (plan: 1e-12 / 1e-11 / 1e-12 / 1e-14) and calibration on the unchanged tree (module-level STATS over
@@ -56,7 +61,7 @@ import numpy as np
 from hypothesis import strategies as st
 
 from oracles import ylm
-from vlib.result import Collector, discard, repo_call
+from vlib.result import Collector, RepoRaised, discard, repo_call
 
 ID = 'C15'
 TECHNIQUE = ('property-based testing (Hypothesis): algebraic invariants (Hooke law, radial tractions via the degree-l Laplace '
@@ -79,6 +84,8 @@ HEAT_TOL = 1e-10   # 600 000-case thorough run: worst err/scale 2.3e-12 (roundin
 ELASTIC_TOL = 1e-14
 ELASTIC_CY_TOL = 1e-14
 LAPLACE_TOL = 1e-11
+ROUTE_TOL = 1e-11
+ROUTES = ['float', 'int', 'zerod']
 W = np.array([1.0, 1.0, 1.0, 2.0, 2.0, 2.0])
 
 RULE = ('Hypothesis draws degree l in {2,3,4}, 1..4 radii, complex y1..y4 and complex shear/bulk per radius (log-uniform '
@@ -135,7 +142,8 @@ def _s_case(l, pot):
         'l': st.just(l), 'pot': pot, 'lon': LON, 'colat': COLAT, 'time': TIME,
         'layers': st.lists(LAYER, min_size=1, max_size=4),
         'mode': st.sampled_from(['visco', 'visco', 'visco', 'visco', 'elastic', 'elastic_cy']),
-        'bulk_dtype': st.sampled_from(['float', 'complex']), 'frequency': logu(1e-8, 1e-2)})
+        'bulk_dtype': st.sampled_from(['float', 'complex']), 'frequency': logu(1e-8, 1e-2),
+        'route': st.sampled_from(['float', 'float', 'int', 'zerod'])})
 
 
 def strategy(tier):
@@ -161,12 +169,15 @@ def fixed_cases(tier):
         out.append({'l': 2, 'pot': {'kind': kind, 'R': 1.0e6, 'e': 0.05, 'spin_ratio': 1.5, 'host_mass': 1.9e27, 'a': 4.2e8},
                     'lon': [0.0, 1.0, 3.0], 'colat': [0.4, 1.2, 2.5], 'time': [0.1, 0.6], 'layers': lay, 'mode': 'visco',
                     'bulk_dtype': 'complex', 'frequency': 4.0e-5})
+    for base in list(out[:6]):                   # both bulk dtypes on both dtype routes
+        out.append(dict(base, route='int'))
+        out.append(dict(base, route='zerod'))
     return out
 
 
 def required_labels(tier):
     return ['l=2', 'l=3', 'l=4', 'pot:ylm', 'pot:repo_simple', 'pot:repo_nsr', 'mode:visco', 'mode:elastic', 'mode:elastic_cy',
-            'bulk:float', 'bulk:complex', 'grid:single_point', 'grid:multi', 'radii:1', 'radii:>1', 'near_pole']
+            'bulk:float', 'bulk:complex', 'route:float', 'route:int', 'route:zerod', 'route_applied:int', 'grid:single_point', 'grid:multi', 'radii:1', 'radii:>1', 'near_pole']
 
 
 def _rng(x, lo, hi):
@@ -194,7 +205,7 @@ def in_domain(case):
               and 1 <= len(case['colat']) <= 6 and all(_rng(v, 0.05, math.pi - 0.05) for v in case['colat'])
               and 1 <= len(case['time']) <= 6 and all(_rng(v, 0.0, 1.0) for v in case['time'])
               and 1 <= len(case['layers']) <= 4 and case['mode'] in ('visco', 'elastic', 'elastic_cy')
-              and case['bulk_dtype'] in ('float', 'complex') and _rng(case['frequency'], 1e-8, 1e-2))
+              and case.get('route', 'float') in ROUTES and case['bulk_dtype'] in ('float', 'complex') and _rng(case['frequency'], 1e-8, 1e-2))
         for la in case['layers']:
             ok = ok and (_rng(la['r'], 1e3, 1e7) and _rng(la['mu_abs'], 1e7, 1e12) and _rng(la['mu_loss'], 0.002, 1.5)
                          and _rng(la['K_abs'], 1e8, 1e13) and _rng(la['K_loss'], 0.0, 0.3) and len(la['y']) == 4
@@ -292,6 +303,21 @@ def _cache_safe(f, *args):
                 os.makedirs(os.path.dirname(str(ex.filename)), exist_ok=True)
 
 
+def _tname(a):
+    return '%s[%dd]' % (a.dtype, a.ndim) if isinstance(a, np.ndarray) else type(a).__name__
+
+
+def _checked(c, name, fn, args):
+    """Call fn(*args); every array argument is copied before and compared after the call (inputs-not-mutated)."""
+    saved = [(j, a.copy()) for j, a in enumerate(args) if isinstance(a, np.ndarray)]
+    res = _cache_safe(fn, *args)
+    for j, before in saved:
+        after = args[j]
+        if after.dtype != before.dtype or after.shape != before.shape or not np.array_equal(after, before, equal_nan=True):
+            c.fail({'clause': 'inputs_mutated', 'fn': name}, '%s changed its argument #%d (%s)' % (name, j, _tname(before)))
+    return res
+
+
 def _fns():
     from TidalPy.tides.multilayer.stress_strain import calculate_strain_stress
     from TidalPy.tides.heating import calculate_volumetric_heating
@@ -304,6 +330,14 @@ def evaluate(case):
     colat = np.array(case['colat'], dtype=np.float64)
     tfrac = np.array(case['time'], dtype=np.float64)
     radius, y, shear, bulk = _inputs(case)
+    if case.get('route', 'float') != 'float':
+        # dtype routes need integral metres / pascals / seconds: round (radii stay strictly increasing)
+        radius = np.round(radius)
+        for i in range(1, len(radius)):
+            if radius[i] <= radius[i - 1]:
+                radius[i] = radius[i - 1] + 1.0
+        if bulk.dtype == np.float64:
+            bulk = np.round(bulk)
     nr, nl, nc, nt = len(radius), len(lon), len(colat), len(tfrac)
     U, Ut, Up, Utt, Upp, Utp = _potential(case, lon, colat, tfrac)
     sin_t = np.sin(colat).reshape(1, -1, 1)
@@ -324,12 +358,45 @@ def evaluate(case):
     if six_nonzero:
         c.label('six_derivatives_nonzero')
     strain_fn, heat_fn = _fns()
-    times = tfrac * 1.0e5
+    route = case.get('route', 'float')
+    times = np.round(tfrac * 1.0e5) if route != 'float' else tfrac * 1.0e5
+    c.label('route:' + route)
+    args = [U, Ut, Up, Utt, Upp, Utp, y, lon, colat, times, radius, shear, bulk, float(case['frequency']), l]
     with repo_call('calculate_strain_stress'):
-        strains, stresses = _cache_safe(strain_fn, U, Ut, Up, Utt, Upp, Utp, y, lon, colat, times, radius, shear, bulk,
-                                        float(case['frequency']), l)
+        strains, stresses = _checked(c, 'calculate_strain_stress', strain_fn, args)
+    if route != 'float':
+        # dtype route: the same numbers as int64 arrays / np.int64 / 0-d array; result must equal the float64 call
+        rargs = list(args)
+        if route == 'int':
+            rargs[9] = times.astype(np.int64)
+            rargs[10] = radius.astype(np.int64)
+            if bulk.dtype == np.float64:
+                rargs[12] = bulk.astype(np.int64)
+            rargs[14] = np.int64(l)
+        else:
+            rargs[13] = np.array(float(case['frequency']), dtype=np.float64)
+        from numba.core.errors import NumbaError
+        try:
+            with repo_call('calculate_strain_stress[%s]' % route):
+                r_strains, r_stresses = _checked(c, 'calculate_strain_stress', strain_fn, rargs)
+        except RepoRaised as e:
+            if not isinstance(e.exc, (NumbaError, TypeError)):
+                raise
+            c.label('route_rejected:' + route)       # undocumented dtype rejected cleanly at typing time
+        else:
+            c.label('route_applied:' + route)
+            for nm, a, b in (('strain', strains, r_strains), ('stress', stresses, r_stresses)):
+                okr = a.shape == b.shape and b.dtype == np.complex128
+                if okr:
+                    rowmax = np.max(np.abs(a), axis=(2, 3, 4), keepdims=True)
+                    okr = bool(np.all(np.abs(a - b) <= ROUTE_TOL * rowmax + 1e-280))
+                c.check(okr, {'clause': 'dtype_route', 'what': nm, 'route': route},
+                        '%s differs between float64 arguments and %s arguments (types %r): max |diff| %r'
+                        % (nm, route, [_tname(x) for x in rargs[9:]],
+                           float(np.max(np.abs(a - b))) if a.shape == b.shape else 'shape %r vs %r' % (a.shape, b.shape)))
+            strains, stresses = r_strains, r_stresses
     with repo_call('calculate_volumetric_heating'):
-        heating = _cache_safe(heat_fn, stresses, strains)
+        heating = _checked(c, 'calculate_volumetric_heating', heat_fn, [stresses, strains])
     shp = (6, nr, nl, nc, nt)
     ok = (strains.shape == shp and stresses.shape == shp and heating.shape == shp[1:]
           and strains.dtype == np.complex128 and stresses.dtype == np.complex128)
